@@ -79,7 +79,10 @@ def gen_case(streams, tier):
     scheds = [{'hash_seed': s.getrandbits(48), 'perm_seed': s.getrandbits(32),
                'iter_policy': s.choice(['random', 'random', 'lifo', 'fifo', None]),
                'iter_seed': s.getrandbits(48)} for _ in range(K)]
+    from . import c17
+    api_prog = c17.gen_program(g) if g.random() < 0.35 else None
     return {'prop': ID, 'script': script, 'sites': sites, 'scheds': scheds,
+            'api_prog': api_prog,
             'compiled': g.random() < 0.08,
             'sched': world.gen_sched(streams, with_iter=False, noise=False)}
 
@@ -579,6 +582,51 @@ def run(case, res):
                                      {'net': str(n), 'producer': str(p), 'sched': k}, ['positive'])
         orders.add(tuple(pos[id(n)] for n in sorted(bb.block.logic, key=str)))
         res.cycles += 1
+    # ---- positive half, API-built design (operators, slices, concat, select, registers,
+    # memories through the public construction API) -------------------------------------------
+    if case.get('api_prog'):
+        from . import c17
+        for k, sc in enumerate(case['scheds'][:4]):
+            common.install_hash_seam(sc['hash_seed'])
+            common.reset_world()
+            try:
+                ab = c17.build(case['api_prog'])
+            except (pyrtl.PyrtlError, pyrtl.PyrtlInternalError) as e:
+                raise HarnessError('api program does not build: %r' % (e,))
+            common.iter_seam.install(sc['iter_policy'], sc['iter_seed'])
+            try:
+                ab.block.sanity_check()
+                pyrtl.Simulation(tracer=pyrtl.SimulationTrace('all', block=ab.block), block=ab.block)
+                pyrtl.FastSimulation(tracer=pyrtl.SimulationTrace('all', block=ab.block), block=ab.block)
+                order = list(ab.block)
+            except (pyrtl.PyrtlError, pyrtl.PyrtlInternalError) as e:
+                return Violation('valid_design', 'api_built_design_rejected',
+                                 {'exc': repr(e)[:300], 'sched': k}, ['positive', 'api'])
+            finally:
+                common.iter_seam.uninstall()
+            seen = set()
+            prod = {}
+            for n in ab.block.logic:
+                for d in n.dests:
+                    prod[id(d)] = n
+            posn = {}
+            for i, n in enumerate(order):
+                if id(n) in posn:
+                    return Violation('iteration', 'net_yielded_twice', {'net': str(n), 'sched': k},
+                                     ['positive', 'api'])
+                posn[id(n)] = i
+            if len(order) != len(ab.block.logic):
+                return Violation('iteration', 'net_count', {'yielded': len(order),
+                                                            'nets': len(ab.block.logic)}, ['positive', 'api'])
+            for i, n in enumerate(order):
+                for a in n.args:
+                    p = prod.get(id(a))
+                    if p is not None and p.op != 'r' and posn[id(p)] >= i:
+                        return Violation('iteration', 'consumer_before_producer',
+                                         {'net': str(n), 'producer': str(p)}, ['positive', 'api'])
+            res.probes.hit('api_built_schedules')
+        common.install_hash_seam(sched.get('hash_seed'))
+        common.reset_world()
     res.probes.hit('iteration_schedules', len(case['scheds']))
     res.probes.hit('distinct_iteration_orders', len(orders))
     res.log.log('iter', 'orders', len(case['scheds']), len(orders))
@@ -635,6 +683,20 @@ def candidates(case):
             c = copy.deepcopy(case)
             c['scheds'] = [case['scheds'][i]]
             yield c
+    if case.get('api_prog'):
+        c = copy.deepcopy(case)
+        c['api_prog'] = None
+        yield c
+        from . import c17
+        for st in case['api_prog']:
+            try:
+                p2 = c17.drop_statement(case['api_prog'], st['id'])
+            except Exception:
+                p2 = None
+            if p2:
+                c = copy.deepcopy(case)
+                c['api_prog'] = p2
+                yield c
     for s in shrink.script_candidates(case['script']):
         c = copy.deepcopy(case)
         c['script'] = s
